@@ -259,10 +259,13 @@ type Query struct {
 	fresh    int
 	recFuns  map[string]string // body text -> function name
 	recDefs  []string
+	hasLambda bool // a definition in decls uses a z3 lambda
+	defined  map[string]string // defined constant -> body
+	typedArr map[string]bool   // array constant|bound -> typing axiom emitted
 }
 
 func newQuery() *Query {
-	q := &Query{declared: map[string]string{}, lits: map[string]string{}, recFuns: map[string]string{}}
+	q := &Query{defined: map[string]string{}, typedArr: map[string]bool{}, declared: map[string]string{}, lits: map[string]string{}, recFuns: map[string]string{}}
 	q.lit("")
 	return q
 }
@@ -276,6 +279,17 @@ func (q *Query) declare(name, sort string) string {
 	}
 	q.declared[name] = sort
 	q.decls = append(q.decls, fmt.Sprintf("(declare-const %s %s)", name, sort))
+	return name
+}
+
+// define: a fresh constant with a definition (its body may only mention symbols declared so far).
+func (q *Query) define(hint, sort, body string) string {
+	q.fresh++
+	name := fmt.Sprintf("%s!%d", sanitize(hint), q.fresh)
+	q.declared[name] = sort
+	q.decls = append(q.decls, fmt.Sprintf("(define-fun %s () %s %s)", name, sort, body))
+	q.hasLambda = true
+	q.defined[name] = body
 	return name
 }
 
